@@ -110,6 +110,41 @@ Proof. unfold fits. apply (fits_from 0 (vp_systems p) st eq_refl). Qed.
 End Data.
 End B.
 
+(* END TO END on the models, core form (solver premise: solver_exact_on) *)
+Theorem exact_data_never_rejected_end_to_end_core (K : CField) (N : K -> Qc) (rsqrt : Qc -> Qc) (ofq : Qc -> K)
+  (minv : nat -> list K -> option (list K))
+  (solve_sq solve_ls : nat -> list (list K) -> list K -> option (list K))
+  (exp erfc sqrt : Qc -> Qc) (pi : Qc) :
+  N c0 = 0%Qc ->
+  forall (p : vprob K) (xs : list (list K)) (tol : Qc) (limit : nat) (xinit : list K) (st_prev : vstate K)
+         (leak : option (list (lcell K))) (ms : mstate) (findex : nat) (plimit : Qc),
+  blocks_wf K p xs -> data_exact K ofq p xs ->
+  (forall es, In es (vp_systems p) -> vp_unknowns p <= length es) -> 2 <= limit ->
+  full_rank_on K ofq minv p xs (calc_weights K N rsqrt p) (init_v_matrices K (v_n K p) st_prev) ->
+  v_regular K minv p xs ->
+  solver_exact_on K ofq minv solve_sq solve_ls p xs (calc_weights K N rsqrt p) (init_v_matrices K (v_n K p) st_prev) ->
+  match leak with Some cells => Forall (leak_exact K N) cells | None => True end ->
+  (plimit <= 1)%Qc ->
+  exists st' ns,
+    solve_frequency K N rsqrt ofq minv solve_sq solve_ls tol limit xinit st_prev p = SOk (concat xs, st', ns) /\
+    forall nf tr,
+    fst (calc_stat K c0 c1 cadd cmul copp N (vp_unknowns p) nf tr (concat xs)
+                   (pv_systems K p st' 0 (vp_systems p)) leak) = 0%Qc /\
+    calc_pvalue K c0 c1 cadd cmul copp N exp erfc sqrt pi (vp_unknowns p) nf tr (concat xs)
+                (pv_systems K p st' 0 (vp_systems p)) leak = 1%Qc /\
+    solve_rejects K c0 c1 cadd cmul copp N exp erfc sqrt pi ms plimit findex (vp_unknowns p) (concat xs)
+                  (pv_systems K p st' 0 (vp_systems p)) leak = false.
+Proof.
+  intros Hn0 p xs tol limit xinit st_prev leak ms findex plimit Hb He Hc Hl Hr Hv Hsol Hleak Hpl.
+  destruct (exact_data_fixed_point_core K N rsqrt ofq minv solve_sq solve_ls Hn0
+              p xs tol limit xinit st_prev Hb He Hc Hl Hr Hv Hsol) as (st' & ns & E & _).
+  exists st', ns. split; [exact E|]. intros nf tr.
+  pose proof (exact_data_fits K ofq p xs Hb He st') as Hf.
+  split; [apply (exact_data_chisq_zero K c0 c1 cadd cmul copp N Hn0); assumption|].
+  split; [apply (exact_data_pvalue_one K c0 c1 cadd cmul copp N Hn0); assumption|].
+  apply (exact_data_never_rejected K c0 c1 cadd cmul copp N Hn0); assumption.
+Qed.
+
 (* END TO END on the models: exact over-determined data, noise model on -> the solve returns the
    truth, and on the V state it ends with the statistic is 0, the p-value 1, and nothing is rejected
    at any limit <= 1, for every number of degrees of freedom *)
